@@ -17,6 +17,12 @@ WITNESSES = ["season_compared", "irrigated_season", "pre_irrigation_season", "bu
 NONTRIVIAL = ["irrigated_season", "pre_irrigation_season", "bunded_season", "table_season", "thermal_season", "season_3plus"]
 
 
+A.CROPS.setdefault("drybean.2", {"name": "DryBean", "scale": 0.2})
+A.CROPS.setdefault("quinoa.2", {"name": "Quinoa", "scale": 0.2})
+A.GW.setdefault("years_v", {"method": "Variable", "series": [[0, 1.9], [250, 1.2], [420, 1.7], [640, 1.0], [800, 1.5], [1200, 1.3]]})
+A.GW.setdefault("years_c", {"method": "Constant", "series": [[0, 1.8], [300, 1.1], [700, 1.5]]})
+
+
 def scenarios(tier, seed=0):
     q = tier == "quick"
     irrs = ["none", "smt", "int3", "sched", "net80", "const8e70"]
@@ -27,10 +33,20 @@ def scenarios(tier, seed=0):
     gws = ["none", "1.5"]
     words = ["mix"] if q else ["mix", "normal", "dry"]
     crops = ["maize.2", "cotton.2"] if q else ["maize.2", "potato.2", "cotton.2", "drybean.2", "quinoa.2"]
-    A.CROPS.setdefault("drybean.2", {"name": "DryBean", "scale": 0.2})
-    A.CROPS.setdefault("quinoa.2", {"name": "Quinoa", "scale": 0.2})
     for irr, iwc, field, gw, word, ck in itertools.product(irrs, iwcs, fields, gws, words, crops):
         c = A._b(crop=ck, irr=irr, iwc=iwc, field=field, gw=gw, word=word, win="w3", soil="Clay" if field.startswith("bunds") else "SandyLoam", dz="deep30" if gw != "none" else "d12")
+        yield {"kind": "config", "config": c}
+    # a water table whose depth differs between the first day of the run and the later planting dates, always BELOW the 1.2 m profile
+    # (shallow-rooted crop, dry start so that net irrigation pre-irrigates): the initial water content does not depend on it, but
+    # anything frozen on the run's first day (adjusted field capacity) shows against the run started at season k
+    for gw, irr, soil, ck in itertools.product(["years_v", "years_c"], ["net80", "net50", "smt"] if not q else ["net80", "smt"], ["Loam", "ClayLoam"], ["maize.2"] if q else ["maize.2", "cotton.2"]):
+        spec = A.to_spec(A._b(crop=ck, irr=irr, iwc="WP", gw=gw, word="normal", win="w3", soil=soil, dz="d12"))
+        spec["crop"]["kw"] = dict(spec["crop"].get("kw") or {}, Zmax=1.0, Zmin=0.3)
+        yield {"kind": "spec", "spec": spec, "label": ["moving-table-below-profile", gw, irr, soil, ck]}
+    # the same series reaching INTO a deep profile: the stored initial water content is the one built for the table of the run's first
+    # day (known finding F23)
+    for gw in ("years_v", "years_c"):
+        c = A._b(crop="maize.2", irr="none", iwc="WP", gw=gw, word="normal", win="w3", soil="Loam", dz="deep30")
         yield {"kind": "config", "config": c}
     for irr in (["smt", "net80"] if q else irrs):
         c = A._b(crop="maize.2", irr=irr, iwc="WP", win={"pre": 3, "seasons": 4}, word="mix", soil="Clay")
@@ -77,6 +93,12 @@ def run(scn):
             res["violations"].append(V("single-season-run-raises", None, {k_: a1.get(k_) for k_ in ("exc_type", "exc_origin", "exc_msg")}, "runs like season k of the long run", season=k))
             continue
         f1, s1, g1 = t1["flux"], t1["storage"], t1["growth"]
+        # fact for the ledger (F23): the table depth on season k's planting date differs from the one on the run's first day and the
+        # initial water content the model built for the two start dates differs because of it
+        zg = np.asarray(getattr(mm._param_struct, "z_gw", []), dtype=float)
+        off_k = int((plantings[k] - start).days)
+        table_moved = bool(len(zg) > off_k and zg[0] != zg[off_k])
+        init_differs = bool(table_moved and not np.array_equal(np.asarray(mm._init_cond.thini, dtype=float), np.asarray(m1._init_cond.thini, dtype=float)))
         ex1 = np.abs(s1[:, 3:]).sum(axis=1) != 0
         rows1 = np.where(ex1 & (f1[:, FX["season_counter"]] == 0))[0]
         res["transitions"] += int(ex1.sum())
@@ -107,7 +129,7 @@ def run(scn):
                 break
         if diff:
             res["violations"].append(V("season-k-equals-fresh-single-season-run", int(rows[0]), diff, "bitwise equal", season=k,
-                                       irr_method=(spec.get("irr") or {}).get("method", 0), sig=["season-k", diff.get("table"), diff.get("col")]))
+                                       irr_method=(spec.get("irr") or {}).get("method", 0), initial_content_built_for_another_table_depth=init_differs, sig=["season-k", diff.get("table"), diff.get("col")]))
         # summary row
         rk = [r for r, i in zip(tm["final"], tm["final_index"]) if i == k]
         r0 = [r for r, i in zip(t1["final"], t1["final_index"]) if i == 0]
@@ -118,7 +140,7 @@ def run(scn):
             a[0] = b[0] = 0
             a[3] = a[3] - off
             if repr(a) != repr(b):
-                res["violations"].append(V("summary-row-equals-single-season-run", None, {"long": rk[0], "single": r0[0]}, "equal after re-basing", season=k))
+                res["violations"].append(V("summary-row-equals-single-season-run", None, {"long": rk[0], "single": r0[0]}, "equal after re-basing", season=k, initial_content_built_for_another_table_depth=init_differs))
         # witnesses
         if (flux[rows, FX["IrrDay"]] > 0).any():
             hitw["irrigated_season"] = hitw.get("irrigated_season", 0) + 1
